@@ -9,6 +9,7 @@ import (
 	"math/rand"
 	"reflect"
 	"regexp"
+	"sort"
 	"strconv"
 	"strings"
 
@@ -259,6 +260,16 @@ func ast(t reflect.Type, tag string, depth int) M {
 	case kRef:
 		return M{"t": "ref", "of": ast(fieldType(t, "Value"), "", depth+1)}
 	case kDict:
+		// HashmapE[K, V]: key width n = K.FixedSize(), value schema = schema of V. Where V has no complete schema the
+		// node stays the bare {"t":"dict"} (the specification's encoder only needs to know "dictionary"; its decoder
+		// then declines to read the entries).
+		if kt, vt, ok := dictTypes(t); ok {
+			if n, ok := fixedSize(kt); ok {
+				if va := ast(vt, "", depth+1); !HasOpaque(va) {
+					return M{"t": "dict", "n": n, "val": va}
+				}
+			}
+		}
 		return M{"t": "dict"}
 	case kCell:
 		return M{"t": "cell"}
@@ -318,6 +329,28 @@ func HasOpaque(a any) bool {
 		}
 	}
 	return false
+}
+
+// dictTypes returns the key and value types of a HashmapE[K, V] (from the signature of its Put method).
+func dictTypes(t reflect.Type) (kt, vt reflect.Type, ok bool) {
+	m, has := reflect.PointerTo(t).MethodByName("Put")
+	if !has || m.Type.NumIn() != 3 {
+		return nil, nil, false
+	}
+	return m.Type.In(1), m.Type.In(2), true
+}
+
+func fixedSize(kt reflect.Type) (n int, ok bool) {
+	defer func() {
+		if recover() != nil {
+			ok = false
+		}
+	}()
+	fs, is := reflect.New(kt).Elem().Interface().(interface{ FixedSize() int })
+	if !is {
+		return 0, false
+	}
+	return fs.FixedSize(), true
 }
 
 func fieldType(t reflect.Type, name string) reflect.Type {
@@ -758,6 +791,11 @@ func camel(s string) string {
 	return sb.String()
 }
 
+// DictBits makes Dump render a dictionary the way the specification's decoder (spec/TlbDec.tla) does: a list of
+// [key bits, value] pairs in ascending order of the key bits (the abstract value of a dictionary is a finite map; this is
+// its canonical listing). Without it entries are listed as the library's Items() returns them, keys in their own dump.
+var DictBits bool
+
 // SchemaShape makes Dump follow the field lists of block.tlb where the Go representation folds fields:
 // addr_extern (a bare *BitString in Go) becomes [len, bits]; Anycast{Depth, RewritePfx uint32} becomes [depth, bits].
 var SchemaShape bool
@@ -786,6 +824,10 @@ func dump(v reflect.Value, tag string, depth int) any {
 				bs := x.AddrExtern.BinaryString()
 				return M{"c": "AddrExtern", "v": []any{strconv.Itoa(len(bs)), bs}}
 			}
+		case tlb.BlockInfo:
+			return blockInfoShape(x, depth)
+		case tlb.ValueFlow:
+			return valueFlowShape(x, depth)
 		}
 	}
 	if t == tMagic {
@@ -863,6 +905,12 @@ func dump(v reflect.Value, tag string, depth int) any {
 			}
 			f = f.Elem()
 		}
+		if SchemaShape {
+			// constructors the Go structs name differently from block.tlb
+			if r, ok := ctorRename[t.Name()][name]; ok && isTlb(t) {
+				name = r
+			}
+		}
 		return M{"c": name, "v": dump(f, "", depth+1)}
 	case kSeq, kOpaque:
 		switch v.Kind() {
@@ -920,6 +968,60 @@ func dump(v reflect.Value, tag string, depth int) any {
 	return M{"unsupported": t.String()}
 }
 
+// ctorRename: Go constructor field -> CamelCase of the block.tlb constructor name (only where they differ).
+var ctorRename = map[string]map[string]string{
+	"MsgEnvelope": {"V1": "MsgEnvelope", "V2": "MsgEnvelopeV2"},
+	"IntermediateAddress": {"IntermediateAddressRegular": "IntermAddrRegular", "IntermediateAddressSimple": "IntermAddrSimple",
+		"IntermediateAddressExt": "IntermAddrExt"},
+}
+
+func bit01(b bool) string {
+	if b {
+		return "1"
+	}
+	return "0"
+}
+
+func condShape(present bool, v func() any) any {
+	if !present {
+		return M{"has": false}
+	}
+	return M{"has": true, "v": v()}
+}
+
+// blockInfoShape lists a decoded BlockInfo field by field as block.tlb declares block_info#9bc7a987 (the Go value folds
+// the one-bit naturals into bools and keeps the conditional fields as pointers).
+func blockInfoShape(x tlb.BlockInfo, depth int) any {
+	u := func(n uint64) string { return strconv.FormatUint(n, 10) }
+	d := func(v any) any { return dump(reflect.ValueOf(v), "", depth+1) }
+	return []any{"", u(uint64(x.Version)), bit01(x.NotMaster), bit01(x.AfterMerge), bit01(x.BeforeSplit), bit01(x.AfterSplit),
+		x.WantSplit, x.WantMerge, x.KeyBlock, bit01(x.VertSeqnoIncr), u(uint64(x.Flags)), u(uint64(x.SeqNo)), u(uint64(x.VertSeqNo)),
+		d(x.Shard), u(uint64(x.GenUtime)), u(x.StartLt), u(x.EndLt), u(uint64(x.GenValidatorListHashShort)), u(uint64(x.GenCatchainSeqno)),
+		u(uint64(x.MinRefMcSeqno)), u(uint64(x.PrevKeyBlockSeqno)),
+		condShape(x.GenSoftware != nil, func() any { return d(*x.GenSoftware) }),
+		condShape(x.MasterRef != nil, func() any { return d(*x.MasterRef) }),
+		d(x.PrevRef),
+		condShape(x.PrevVertRef != nil, func() any { return d(*x.PrevVertRef) }),
+	}
+}
+
+// valueFlowShape: value_flow#b8e48dfb / value_flow_v2#3ebf98b7 with their two anonymous records.
+func valueFlowShape(x tlb.ValueFlow, depth int) any {
+	d := func(v tlb.CurrencyCollection) any { return dump(reflect.ValueOf(v), "", depth+1) }
+	first := []any{d(x.FromPrevBlk), d(x.ToNextBlk), d(x.Imported), d(x.Exported)}
+	second := []any{d(x.FeesImported), d(x.Recovered), d(x.Created), d(x.Minted)}
+	switch uint32(x.Magic) {
+	case 0xb8e48dfb:
+		return M{"c": "ValueFlow", "v": []any{first, d(x.FeesCollected), second}}
+	case 0x3ebf98b7:
+		if x.Burned == nil {
+			return M{"c": "ValueFlowV2", "v": []any{first, d(x.FeesCollected), M{"nil": true}, second}}
+		}
+		return M{"c": "ValueFlowV2", "v": []any{first, d(x.FeesCollected), d(*x.Burned), second}}
+	}
+	return M{"c": fmt.Sprintf("magic_%x", uint32(x.Magic)), "v": []any{}}
+}
+
 func dumpDict(v reflect.Value, depth int) any {
 	// HashmapE[K, V]: Items() []HashmapItem[K, V]
 	m := v.MethodByName("Items")
@@ -928,11 +1030,71 @@ func dumpDict(v reflect.Value, depth int) any {
 	}
 	items := m.Call(nil)[0]
 	out := []any{}
+	if DictBits {
+		type kv struct {
+			k string
+			v any
+		}
+		var l []kv
+		for i := 0; i < items.Len(); i++ {
+			it := items.Index(i)
+			kb, ok := KeyBits(it.FieldByName("Key"))
+			if !ok {
+				return M{"unsupported": "dictionary key " + it.FieldByName("Key").Type().String()}
+			}
+			l = append(l, kv{kb, dump(it.FieldByName("Value"), "", depth+1)})
+		}
+		sort.SliceStable(l, func(a, b int) bool { return l[a].k < l[b].k })
+		for _, e := range l {
+			out = append(out, []any{e.k, e.v})
+		}
+		return out
+	}
 	for i := 0; i < items.Len(); i++ {
 		it := items.Index(i)
 		out = append(out, []any{dump(it.FieldByName("Key"), "", depth+1), dump(it.FieldByName("Value"), "", depth+1)})
 	}
 	return out
+}
+
+// KeyBits is the n-bit key of a dictionary entry as the TL-B definition of the key type lays it out (big-endian,
+// two's complement for signed keys, the bits themselves for bitsN), computed here from the numeric value - not by
+// the library's encoder. Key types with a codec of their own go through that codec.
+func KeyBits(k reflect.Value) (string, bool) {
+	kind, n := classify(k.Type())
+	var x *big.Int
+	switch kind {
+	case kUint:
+		x = new(big.Int).SetUint64(k.Uint())
+	case kInt:
+		x = big.NewInt(k.Int())
+	case kBigUint, kBigInt:
+		x = new(big.Int).Set(getBigStruct(k))
+	case kBits:
+		b := make([]byte, k.Len())
+		for i := range b {
+			b[i] = byte(k.Index(i).Uint())
+		}
+		return bitsOfBytes(b), true
+	default:
+		c := boc.NewCell()
+		if err := tlb.Marshal(c, k.Interface()); err != nil {
+			return "", false
+		}
+		bs := c.RawBitString()
+		return bs.BinaryString(), true
+	}
+	if n <= 0 {
+		return "", n == 0
+	}
+	if x.Sign() < 0 {
+		x.Add(x, new(big.Int).Lsh(big.NewInt(1), uint(n)))
+	}
+	s := x.Text(2)
+	if len(s) > n {
+		return "", false
+	}
+	return strings.Repeat("0", n-len(s)) + s, true
 }
 
 // ---------------------------------------------------------------------------------------------- undumping
